@@ -10,8 +10,8 @@ U = project.uncps
 PLANS = {
     # tier -> [(profile, MaxOps)]
     # (profile, MaxOps) exhaustive; (profile, MaxOps, n) = n simulated behaviours (random deep filters)
-    "quick": [("logic", 2), ("arith", 1), ("strings", 1), ("misc", 1), ("logic", 7, 1200), ("arith", 5, 150), ("strings", 4, 150)],
-    "thorough": [("logic", 3), ("arith", 2), ("strings", 2), ("misc", 2), ("logic", 8, 6000), ("arith", 6, 3000),
+    "quick": [("logic", 2), ("arith", 1), ("strings", 1), ("misc", 1), ("math", 1), ("logic", 7, 1200), ("arith", 5, 150), ("strings", 4, 150)],
+    "thorough": [("logic", 3), ("arith", 2), ("strings", 2), ("misc", 2), ("math", 2), ("logic", 8, 6000), ("arith", 6, 3000),
                  ("strings", 5, 3000), ("misc", 4, 3000)],
 }
 
@@ -131,7 +131,7 @@ def run(ctx, backend):
     plans = PLANS[ctx.tier]
     if ctx.tier == "quick" and backend != "sqlite":
         # the ORM round trip costs ~2 ms per query: smaller exhaustive bound, same simulated depth
-        plans = [("logic", 1), ("arith", 1), ("strings", 1), ("misc", 1), ("logic", 7, 700), ("arith", 5, 150), ("strings", 4, 150)]
+        plans = [("logic", 1), ("arith", 1), ("strings", 1), ("misc", 1), ("math", 1), ("logic", 7, 700), ("arith", 5, 150), ("strings", 4, 150)]
     for plan in plans:
         prof, mo = plan[0], plan[1]
         consts = {"MaxOps": mo, "Profile": '"%s"' % prof, "Backend": '"%s"' % backend}
